@@ -40,6 +40,9 @@ pub enum TmOp {
     NhReach { nh: u8, reachable: bool },
     Subscribe,
     Unsubscribe(u8),
+    /// a path from the API (kind 0, Source::local) or from the kernel (kind 1, Source::kernel)
+    InsertLocal { kind: u8, prefix: u8, attrs: u8, nh: u8 },
+    RemoveLocal { kind: u8, prefix: u8 },
 }
 
 #[derive(Clone, Debug, Serialize, Deserialize, PartialEq)]
@@ -78,7 +81,15 @@ pub fn route_target(n: u8) -> [u8; 8] {
     [0x00, 0x02, 0xfd, 0xe8, 0, 0, 0, n]
 }
 
+/// first index of the FlowSpec prefixes (routes without a next hop)
+pub const FLOWSPEC_PREFIX_BASE: u8 = 230;
+
 pub fn prefix(i: u8) -> (Family, packet::Nlri) {
+    if i >= FLOWSPEC_PREFIX_BASE {
+        let k = (i - FLOWSPEC_PREFIX_BASE) % 3;
+        let spec = crate::cgen::nlri::NlriSpec::Flowspec { v6: false, rd: None, comps: vec![crate::cgen::nlri::FsComp::Prefix { src: false, addr: crate::cgen::nlri::u128v(((10u128) << 24) | ((70 + k as u128) << 16)), len: 16, offset: 0 }] };
+        return (Family::IPV4_FLOWSPEC, spec.build());
+    }
     if i >= VPN_PREFIX_BASE {
         // one route distinguisher per prefix: what a VRF should hold when two VPN routes map
         // to the same VRF prefix is not fixed by any statement here
@@ -141,6 +152,10 @@ pub struct Sub {
 }
 
 pub struct Rig {
+    /// per-peer prefix-limit counters of the current sessions and the configured maximum (C15 tm-limits)
+    pub limits: RefCell<Option<(u32, Vec<Arc<std::sync::atomic::AtomicU64>>)>>,
+    /// the peer whose insert was refused for its limit by the last op
+    pub exceeded: Cell<Option<u8>>,
     pub tm: Arc<TableManager>,
     pub sources: Vec<Arc<table::Source>>,
     pub subs: RefCell<Vec<Sub>>,
@@ -202,7 +217,7 @@ impl Rig {
             tm.kernel_handle.store(Some(Arc::new(h)));
             kernel_rx = Some(rx);
         }
-        Rc::new(Rig { tm, sources, subs: RefCell::new(Vec::new()), policies, fired: Cell::new(0), in_nested: Cell::new(false), kernel_rx: RefCell::new(kernel_rx), _policy_tables: keep })
+        Rc::new(Rig { limits: RefCell::new(None), exceeded: Cell::new(None), tm, sources, subs: RefCell::new(Vec::new()), policies, fired: Cell::new(0), in_nested: Cell::new(false), kernel_rx: RefCell::new(kernel_rx), _policy_tables: keep })
     }
 
     /// `with_roles(true, ..)` plus three VRFs: "a" (table 10, imports RT 1), "b" (table 20, imports RT 1 and 2),
@@ -221,17 +236,37 @@ impl Rig {
             TmOp::Insert { peer, prefix: p, path_id, attrs, nh } => {
                 let (family, nlri) = prefix(*p);
                 let src = self.sources[(*peer % N_PEERS) as usize].clone();
-                let _ = self.tm.insert_route(src, family, PathNlri { path_id: (*path_id % 2) as u32, nlri }, Some(nh_addr(*nh, family == Family::IPV6)), attrs_variant(*attrs), None, 1);
+                let limit = self.limits.borrow().as_ref().map(|(max, c)| (*max, c[(*peer % N_PEERS) as usize].clone()));
+                // FlowSpec routes carry no next hop
+                let nexthop = if family == Family::IPV4_FLOWSPEC { None } else { Some(nh_addr(*nh, family == Family::IPV6)) };
+                if self.tm.insert_route(src, family, PathNlri { path_id: (*path_id % 2) as u32, nlri }, nexthop, attrs_variant(*attrs), limit, 1) {
+                    self.exceeded.set(Some(*peer % N_PEERS));
+                }
             }
             TmOp::Remove { peer, prefix: p, path_id } => {
                 let (family, nlri) = prefix(*p);
                 let src = self.sources[(*peer % N_PEERS) as usize].clone();
-                self.tm.remove_route(src, family, PathNlri { path_id: (*path_id % 2) as u32, nlri }, None, 2);
+                let counter = self.limits.borrow().as_ref().map(|(_, c)| c[(*peer % N_PEERS) as usize].clone());
+                self.tm.remove_route(src, family, PathNlri { path_id: (*path_id % 2) as u32, nlri }, counter, 2);
+            }
+            TmOp::InsertLocal { kind, prefix: p, attrs, nh } => {
+                let (family, nlri) = prefix(*p);
+                let src = if kind % 2 == 0 { table::Source::local() } else { table::Source::kernel() };
+                let _ = self.tm.insert_route(src, family, PathNlri { path_id: 0, nlri }, Some(nh_addr(*nh, family == Family::IPV6)), attrs_variant(*attrs), None, 1);
+            }
+            TmOp::RemoveLocal { kind, prefix: p } => {
+                let (family, nlri) = prefix(*p);
+                let src = if kind % 2 == 0 { table::Source::local() } else { table::Source::kernel() };
+                self.tm.remove_route(src, family, PathNlri { path_id: 0, nlri }, None, 2);
             }
             TmOp::DropPeer { peer } => {
                 let src = &self.sources[(*peer % N_PEERS) as usize];
                 // the daemon's order on session loss (PeerSession::run): routes first, then the event
-                self.tm.unregister_peer(src.remote_addr, &[Family::IPV4, Family::IPV6, Family::IPV4_VPN], &[]);
+                self.tm.unregister_peer(src.remote_addr, &[Family::IPV4, Family::IPV6, Family::IPV4_VPN, Family::IPV4_FLOWSPEC], &[]);
+                // the next session of the peer starts with a counter of its own
+                if let Some((_, c)) = self.limits.borrow_mut().as_mut() {
+                    c[(*peer % N_PEERS) as usize] = Arc::new(std::sync::atomic::AtomicU64::new(0));
+                }
                 self.tm.peer_down(PeerDownData { peer_addr: src.remote_addr, peer_asn: src.remote_asn, peer_id: src.router_id, uptime: 0, reason: packet::bmp::PeerDownReason::RemoteUnexpected });
             }
             TmOp::MarkStale { peer } => {
